@@ -351,6 +351,59 @@ impl Corpus for TriZ {
     }
 }
 
+/// Mutually recursive triple whose hub is an enum.
+#[derive(CandidType, Deserialize, Debug, Clone, PartialEq)]
+pub enum TriV {
+    Y(Box<TriVY>),
+    Z(Box<TriVZ>),
+    Nil,
+}
+#[derive(CandidType, Deserialize, Debug, Clone, PartialEq)]
+pub struct TriVY {
+    pub x: Option<Box<TriV>>,
+    pub n: u16,
+}
+#[derive(CandidType, Deserialize, Debug, Clone, PartialEq)]
+pub struct TriVZ {
+    pub x: Option<Box<TriV>>,
+    pub b: bool,
+}
+impl Corpus for TriV {
+    fn gen(e: &mut Ent, d: usize) -> Self {
+        if d == 0 {
+            return TriV::Nil;
+        }
+        match e.below(3) {
+            0 => TriV::Y(Box::new(TriVY::gen(e, d - 1))),
+            1 => TriV::Z(Box::new(TriVZ::gen(e, d - 1))),
+            _ => TriV::Nil,
+        }
+    }
+    fn to_rval(&self) -> RVal {
+        match self {
+            TriV::Y(y) => var("Y", y.to_rval()),
+            TriV::Z(z) => var("Z", z.to_rval()),
+            TriV::Nil => var("Nil", RVal::Null),
+        }
+    }
+}
+impl Corpus for TriVY {
+    fn gen(e: &mut Ent, d: usize) -> Self {
+        TriVY { x: if d == 0 || e.bool() { None } else { Some(Box::new(TriV::gen(e, d - 1))) }, n: u16::gen(e, 0) }
+    }
+    fn to_rval(&self) -> RVal {
+        rec(vec![("x", RVal::Opt(self.x.as_ref().map(|x| Box::new(x.to_rval())))), ("n", self.n.to_rval())])
+    }
+}
+impl Corpus for TriVZ {
+    fn gen(e: &mut Ent, d: usize) -> Self {
+        TriVZ { x: if d == 0 || e.bool() { None } else { Some(Box::new(TriV::gen(e, d - 1))) }, b: bool::gen(e, 0) }
+    }
+    fn to_rval(&self) -> RVal {
+        rec(vec![("x", RVal::Opt(self.x.as_ref().map(|x| Box::new(x.to_rval())))), ("b", self.b.to_rval())])
+    }
+}
+
 /// Mutually recursive pair.
 #[derive(CandidType, Deserialize, Debug, Clone, PartialEq)]
 pub struct MutA {
